@@ -74,14 +74,14 @@ type PropMeta struct {
 }
 
 // PropIDs lists the properties that have a check.
-var PropIDs = []string{"C12"}
+var PropIDs = []string{"C05", "C12", "C19"}
 
 type WorkerOut struct {
 	Meta         PropMeta          `json:"meta"`
 	Args         WorkerArgs        `json:"args"`
 	Runs         int               `json:"runs"`
 	Steps        int64             `json:"steps"`
-	SimNs        int64             `json:"sim_ns"`
+	SimNs        float64           `json:"sim_ns"`
 	Events       int64             `json:"events"`
 	WallS        float64           `json:"wall_s"`
 	Faults       map[string]int    `json:"faults"`
